@@ -9,17 +9,15 @@ Min(x,y) == IF x < y THEN x ELSE y
 CeilDiv(x,d) == (x + d - 1) \div d
 \* 1 - (1-c)(1-i)(1-a) at scale 10^6 for weights x100
 IB6(c,i,a) == 1000000 - (100-c)*(100-i)*(100-a)
-\* every value the (capped) impact sub-score base can take, derived from the weight tables:
-\* the power terms below are tabulated once per TLC run over this set (<= 85 values)
-ReqWeighted == {(w * r) \div 10 : w \in {WCIA3[v] : v \in DOMAIN WCIA3}, r \in {WREQ3[v] : v \in DOMAIN WREQ3}}
-IBSet == {Min(IB6(x,y,z), 915000) : x \in ReqWeighted, y \in ReqWeighted, z \in ReqWeighted}
-Pow15 == [x \in IBSet |-> IPow(IOf(x-20000),15)]
-Pow13 == [x \in IBSet |-> IPow(ISub(IMulS(IOf(x),9731), IOf(200000000)),13)]
+\* x^15 and x^13 by repeated squaring
+Pow15(x) == LET x2 == IMul(x,x)  x3 == IMul(x2,x)  x6 == IMul(x3,x3)  x7 == IMul(x6,x)  x14 == IMul(x7,x7) IN IMul(x14,x)
+Pow13(x) == LET x2 == IMul(x,x)  x3 == IMul(x2,x)  x6 == IMul(x3,x3)  x12 == IMul(x6,x6) IN IMul(x12,x)
 \* Impact sub-score. 3.0 / base polynomial at scale 10^92, 3.1 modified polynomial at scale 10^132
 ISC30(scope, ib6) == IF scope = "U" THEN IShift10(IOf(642*ib6), 84)
-                     ELSE ISub(IShift10(IMulS(IOf(ib6-29000),752), 84), IMulS(Pow15[ib6], 325))
+                     ELSE ISub(IShift10(IMulS(IOf(ib6-29000),752), 84), IMulS(Pow15(IOf(ib6-20000)), 325))
 ISC31(scope, ib6) == IF scope = "U" THEN IShift10(IOf(642*ib6), 124)
-                     ELSE ISub(IShift10(IMulS(IOf(ib6-29000),752), 124), IMulS(Pow13[ib6], 325))
+                     ELSE ISub(IShift10(IMulS(IOf(ib6-29000),752), 124),
+                               IMulS(Pow13(ISub(IMulS(IOf(ib6),9731), IOf(200000000))), 325))
 \* 8.22 x AV x AC x PR x UI at scale 10^10
 ESC10(av,ac,pr,ui) == IMulS(IMulS(IMulS(IMulS(IOf(822),av),ac),pr),ui)
 \* pre-rounding value min(isc+esc [x1.08], 10) at scale 10^(S+2); isc at scale 10^S
